@@ -31,7 +31,11 @@ where
     let mut len = 1;
 
     loop {
-        let src = reader.fill_buf()?;
+        let src = match reader.fill_buf() {
+            Ok(src) => src,
+            Err(ref e) if e.kind() == io::ErrorKind::Interrupted => continue,
+            Err(e) => return Err(e),
+        };
 
         if src.is_empty() {
             break;
@@ -43,16 +47,7 @@ where
                     SPACE | HORIZONTAL_TAB => &src[..i],
                     LINE_FEED => {
                         is_eol = true;
-
-                        let line = &src[..i];
-
-                        if line.ends_with(&[CARRIAGE_RETURN]) {
-                            // SAFETY: `line.len()` is > 0.
-                            let end = line.len() - 1;
-                            &line[..end]
-                        } else {
-                            line
-                        }
+                        &src[..i]
                     }
                     _ => unreachable!(),
                 };
@@ -75,7 +70,13 @@ where
         }
     }
 
-    if !is_eol {
+    if is_eol {
+        // The carriage return of a CRLF line ending may have been delivered in an earlier buffer
+        // than the line feed, so it is stripped only after the name is completely read.
+        if definition.name().ends_with(&[CARRIAGE_RETURN]) {
+            definition.name_mut().pop();
+        }
+    } else {
         len += read_line(reader, definition.description_mut())?;
     }
 
